@@ -156,6 +156,19 @@ def mc_poll(c):
         c.tlc_mc("MC_Poll-live-" + fam, "MC_Poll", cfg_text=live.replace('Fam = "v3"', 'Fam = "%s"' % fam), workers=8)
 
 
+def mc_encoder(c):
+    c.tlc_mc("MC_Encoder", "MC_Encoder", workers=8)
+
+
+def mc_stream(c):
+    base = open(vlib.SPEC + "/mc/MC_Stream.cfg").read()
+    n = 4 if c.tier == "thorough" else 3
+    for fam in ("v3", "v5"):
+        c.tlc_mc("MC_Stream-" + fam, "MC_Stream",
+                 cfg_text=base.replace('Fam = "v3"', 'Fam = "%s"' % fam).replace("MaxPackets = 3", "MaxPackets = %d" % n),
+                 workers=12)
+
+
 def plan_c01(c):
     n = gen_replay(c, "roundtrip", "Trace_Wire", "Trace_Wire_C01.cfg", "C01 round trip")
     m, _ = tv(c, "roundtrip", "Trace_Wire", "Trace_Wire_C01.cfg", "C01 round trip (seeded rich packets)")
@@ -176,6 +189,7 @@ def plan_c02(c):
 
 
 def plan_c09(c):
+    mc_encoder(c)
     n = gen_replay(c, "enc", "Trace_Wire", "Trace_Wire_C09.cfg", "C09 encoder entry points")
     m, _ = tv(c, "enc", "Trace_Wire", "Trace_Wire_C09.cfg", "C09 encoder entry points (seeded rich packets)")
     c.traces += m
@@ -231,6 +245,7 @@ def plan_c05(c):
 
 def plan_c08(c):
     mc_poll(c)
+    mc_stream(c)
     p, files = tv(c, "stream", "Trace_Stream", "Trace.cfg", "C08 back-to-back framing", shard=20000, per_run=True)
     runs = 0
     for f in files:
@@ -242,6 +257,7 @@ def plan_c08(c):
 
 def plan_c14(c):
     mc_poll(c)
+    mc_encoder(c)
     m, _ = tv(c, "fault", "Trace_Front", "Trace_Front_C14.cfg", "C14 fault injection at every position", shard=60)
     c.traces += m
     return m
